@@ -4,7 +4,7 @@
     they compute (i) model = observation, (ii) the property predicate
     [trace_ok] on the IMPLEMENTATION's calls, (iii) the finding guards that fire
     on the history. *)
-From HV Require Export Base.Prelude C18.Model C18.ModelBlob C18.Spec C18.Proofs C18.ProofsBlob.
+From HV Require Export Base.Prelude C18.Model C18.ModelBlob C18.ModelK8s C18.Spec C18.Proofs C18.ProofsBlob C18.ProofsK8s.
 
 (** the processor oracle of a case: contents it rejects, sources whose deletion it refuses *)
 Definition mk_oracle (rej : list cid) (undel : list nat) : oracle :=
@@ -86,6 +86,25 @@ Definition check_blob (impl_fixed : bool) (c : blob_case) : verdict :=
                          (6%Z, blob_guard_F6 (bc_hist c))] |}.
 
 Definition blc nb nk rej h o := {| bc_nb := nb; bc_nk := nk; bc_rej := rej; bc_hist := h; bc_obs := o |}.
+
+(** ** Kubernetes *)
+Record k8s_case := {
+  kc_rej : list cid;
+  kc_hist : list k8s_event;
+  kc_obs : list (list pcall) }.
+
+Definition check_k8s (c : k8s_case) : verdict :=
+  let O := mk_oracle (kc_rej c) [] in
+  let model := snd (k8s_run O (kc_hist c)) in
+  {| v_corr := list_eqb (list_eqb pcall_eqb) model (kc_obs c);
+     v_prop := negb (k8s_wf (kc_hist c)) ||
+               (Nat.eqb (length (kc_obs c)) (length (kc_hist c)) &&
+                trace_ok (accepts O) (norm_trace (mk_trace (k8s_views (kc_hist c)) (kc_obs c))));
+     v_guards := [] |}.
+
+Definition ko u cls gen c := {| k_uid := u; k_cls := cls; k_gen := gen; k_cid := c |}.
+Definition wA := WAdded. Definition wM := WModified. Definition wD := WDeleted.
+Definition k8c rej h o := {| kc_rej := rej; kc_hist := h; kc_obs := o |}.
 
 (** ** short constructors for the generated case files *)
 Definition CA := CAbsent. Definition CE := CEmpty. Definition CI := CInvalid. Definition CV := CValid.
